@@ -47,6 +47,11 @@ func bindKinds() []bkind {
 		// (proto.ColEnum adopts whatever enum the server names, of either width: the specification calls that target "Enum")
 		{name: "enumA", t: tp("Enum8", "'a' = 1", "'b' = 2"), kind: b.E8, target: enumT, wire: "Enum8('a' = 1, 'b' = 2)", tt: &anyEnum},
 		{name: "enumB", t: tp("Enum8", "'x' = 1", "'y' = 2", "'z' = 3"), kind: b.E8, target: enumT, wire: "Enum8('x' = 1, 'y' = 2, 'z' = 3)", tt: &anyEnum},
+		// decimals: the server names a precision, the caller's column a width; the precisions at the edges of the widths
+		{name: "d32", t: t0("Decimal32"), kind: b.D32}, {name: "d64", t: t0("Decimal64"), kind: b.D64}, {name: "d128", t: t0("Decimal128"), kind: b.D128},
+		{name: "dec9", t: dec(9, 2), kind: b.D32, wire: "Decimal(9, 2)"}, {name: "dec10", t: dec(10, 2), kind: b.D64, wire: "Decimal(10, 2)"},
+		{name: "dec18", t: dec(18, 4), kind: b.D64, wire: "Decimal(18, 4)"}, {name: "dec19", t: dec(19, 4), kind: b.D128, wire: "Decimal(19, 4)"},
+		{name: "dec38", t: dec(38, 1), kind: b.D128, wire: "Decimal(38, 1)"}, {name: "dec39", t: dec(39, 1), kind: b.D256, wire: "Decimal(39, 1)"},
 		// the raw enum columns of both widths, with and without a definition in the server's type name
 		{name: "e8raw", t: t0("Enum8"), kind: b.E8}, {name: "e16raw", t: t0("Enum16"), kind: b.E16},
 		{name: "e8rawDef", t: tp("Enum8", "'a' = 1", "'b' = 2"), kind: b.E8, wire: "Enum8('a' = 1, 'b' = 2)"},
@@ -217,6 +222,17 @@ func bindMain(args []string) error {
 					sn[rng.Intn(len(sn))] = "renamed"
 				} else {
 					sch[rng.Intn(len(sch))] = ks[rng.Intn(len(ks))]
+				}
+				// a decimal column comes back with a precision of the neighbouring width
+				for i, k := range sch {
+					if alt, ok := map[string]string{"dec9": "dec10", "dec10": "dec9", "dec18": "dec19", "dec19": "dec18", "dec38": "dec39", "dec39": "dec38",
+						"d32": "dec10", "d64": "dec19", "d128": "dec39"}[k.name]; ok && rng.Intn(2) == 0 {
+						for _, k2 := range ks {
+							if k2.name == alt {
+								sch[i] = k2
+							}
+						}
+					}
 				}
 				// a column whose parameters the target adopts comes back with other parameters (the target still holds rows)
 				for i, k := range sch {
